@@ -76,3 +76,20 @@ package pcapgo
 //@ func (r *Reader) ZeroCopyReadPacketData() (data []byte, ci gopacket.CaptureInfo, err error)
 //@   props C14 C15
 //@   ensures err == nil ==> len(data) == ci.CaptureLength && ci.CaptureLength <= ci.Length && ci.CaptureLength <= r.snaplen && 0 <= ci.CaptureLength
+
+// ---- snoop reader (C15): the allocation for a record is bounded and never negative ---------------------------------
+
+// A record header is accepted only with 0 <= CaptureLength <= Length, CaptureLength <= 4096 and a padding of
+// 0..4096 bytes (record length minus header and captured bytes), so make([]byte, CaptureLength+pad) cannot panic
+// and allocates at most 8 KiB whatever the file claims.
+//@ func (r *SnoopReader) readPacketHeader() (ci gopacket.CaptureInfo, err error)
+//@   props C15
+//@   ensures err == nil ==> 0 <= ci.CaptureLength && ci.CaptureLength <= ci.Length && ci.CaptureLength <= 4096 && 0 <= r.pad && r.pad <= 4096
+
+//@ func (r *SnoopReader) ReadPacketData() (data []byte, ci gopacket.CaptureInfo, err error)
+//@   props C15
+//@   ensures err == nil ==> len(data) == ci.CaptureLength && ci.CaptureLength <= ci.Length
+
+//@ func (r *SnoopReader) ZeroCopyReadPacketData() (data []byte, ci gopacket.CaptureInfo, err error)
+//@   props C15
+//@   ensures err == nil ==> len(data) == ci.CaptureLength && ci.CaptureLength <= ci.Length
